@@ -17,6 +17,8 @@ const modPath = "go.sia.tech/core"
 
 type Program struct {
 	specConsts map[*ssa.Global]*Term
+	storeCount map[*ssa.Global]int
+	initVals   map[*ssa.Package]map[*ssa.Global]*Term
 	Fset     *token.FileSet
 	Pkgs     []*packages.Package
 	SSA      *ssa.Program
